@@ -106,18 +106,21 @@ func TestHostStructs(t *testing.T) {
 	r := ev.R()
 	r.Disjoint()
 	for n := 1; n <= 4; n++ {
-		r.Eval(1)
-		r.NontrivialN(1)
-		if f := checkHostStructs(n); f != nil {
-			r.Fail(t, f)
-			return
+		for _, shared := range []bool{false, true} {
+			r.Eval(1)
+			r.NontrivialN(1)
+			if f := checkHostStructs(n, shared); f != nil {
+				r.Fail(t, f)
+				return
+			}
 		}
 	}
 }
 
-func checkHostStructs(n int) (f *ev.Failure) {
+// shared: the host builds all instances from one initialiser slice, patching the values between the calls
+func checkHostStructs(n int, shared bool) (f *ev.Failure) {
 	mk := func(format string, a ...any) *ev.Failure {
-		return &ev.Failure{Kind: "hoststruct", Case: map[string]any{"instances": n}, Msg: fmt.Sprintf(format, a...)}
+		return &ev.Failure{Kind: "hoststruct", Case: map[string]any{"instances": n, "shared": shared}, Msg: fmt.Sprintf(format, a...)}
 	}
 	defer func() {
 		if p := recover(); p != nil {
@@ -130,8 +133,16 @@ func checkHostStructs(n int) (f *ev.Failure) {
 	}
 	base := vm.Get("main.T")
 	var insts []goatlang.Value
+	data := []goatlang.Value{goatlang.String("X"), goatlang.Int(0), goatlang.String("S"), goatlang.String("")}
 	for i := 0; i < n; i++ {
-		insts = append(insts, goatlang.NewStruct(base, []goatlang.Value{goatlang.String("X"), goatlang.Int(i + 1), goatlang.String("S"), goatlang.String(strings.Repeat("a", i))}))
+		if !shared {
+			data = []goatlang.Value{goatlang.String("X"), goatlang.Int(0), goatlang.String("S"), goatlang.String("")}
+		}
+		data[1], data[3] = goatlang.Int(i+1), goatlang.String(strings.Repeat("a", i))
+		insts = append(insts, goatlang.NewStruct(base, data))
+		if data[0].String() != "X" || data[2].String() != "S" || data[1].Int() != i+1 {
+			return mk("NewStruct changed the initialiser slice it was given: it now reads %v", data)
+		}
 	}
 	check := func(stage string) *ev.Failure {
 		for i, v := range insts {
